@@ -126,9 +126,12 @@ def run_walks(ctx, oracle_cls, *, n_walks: int, steps: int, profile: str, cfg_kw
         k = 0
         if not walk.failures:
             for k in range(steps):
-                if walk.oracle.extra_ops and _is_extra(rnd, weights, walk.oracle.extra_ops):
+                static = bool(walk.world.cfg.get("static")) and bool(walk.oracle.extra_ops)
+                if walk.oracle.extra_ops and (static or _is_extra(rnd, weights, walk.oracle.extra_ops)):
                     kinds = sorted(walk.oracle.extra_ops)
                     op = walk.oracle.gen_extra(kinds[rnd.randint(0, len(kinds) - 1)], rnd)
+                    if op is None and static:
+                        continue
                     if op is None:
                         op = gen_op(walk.world, rnd, {k2: v for k2, v in weights.items() if k2 not in walk.oracle.extra_ops}, refusal_bias)
                 else:
@@ -168,6 +171,8 @@ def _config_tags(col, cfg):
         col.event("cfg:scale=isotropic")
     if cfg.get("pos_mode") == "axes":
         col.event("cfg:per_axis_pos")
+    if cfg.get("seg_axes"):
+        col.event("cfg:seg_with_per_axis_pos")
     for k in cfg.get("optional", []):
         col.event(f"cfg:opt={k}")
 
